@@ -259,6 +259,26 @@ theorem tpe_disc_in_domain (c : FCls) (low high step : Rat) (h : WF (.flt c low 
   rw [tpeDisc_eq, hk]
   exact ⟨_, by simp [Dist.toInternal, Tok.num?], stepped_contains c low high step false K k hs hK hk0 hk1⟩
 
+/-- TPE's continuous path (float without step, linear scale; `np.clip(_truncnorm.rvs(..), low, high)`): for EVERY
+raw sample `s` — in particular one that the rescaling `ppf(q) * sigma + mu` has pushed an ulp outside — the result
+is a member of the domain. (Before the repair of F33 the raw sample was returned as is.) -/
+theorem tpe_cont_in_domain (c : FCls) (low high : Rat) (h : WF (.flt c low high false none)) (s : Rat) :
+    Member (.flt c low high false none) (.flt (tpeCont low high s)) := by
+  obtain ⟨hl, _, _, _⟩ := h
+  have hm := clip_mem (x := s) hl
+  refine ⟨tpeCont low high s, by simp [Dist.toInternal, Tok.num?], ?_⟩
+  unfold tpeCont
+  simp [Dist.contains, hm.1, hm.2]
+
+-- non-vacuity: a raw sample just below `low` is pulled back onto `low`; the unclipped sample is not a member
+example : tpeCont (123456/1000) (1123456/1000) (123455/1000) = 123456/1000 := by
+  norm_num [tpeCont, clip]
+example : (Dist.flt .float (123456/1000) (1123456/1000) false none).contains (123455/1000) = false := by
+  norm_num [Dist.contains]
+example : WF (.flt .float (123456/1000) (1123456/1000) false none) := by
+  refine ⟨by norm_num, by simp, by simp, ?_⟩
+  simp [FClsOK]
+
 /-- TPE's int rounding (`_untransform` + `to_external_repr`): for EVERY raw number (after `exp` for log ints) the
 result is an int of the domain, on the step grid. -/
 theorem tpe_int_in_domain (c : ICls) (low high : Int) (log : Bool) (step : Int) (h : WF (.int c low high log step))
